@@ -1,4 +1,4 @@
-\* decision table export: 96 rows with the documented decision
+\* decision table export: 264 rows with the documented decision
 SPECIFICATION Spec
 CONSTANT Variant = "as_documented"
 INVARIANT Emit
